@@ -59,9 +59,9 @@ static bool plain_name(const std::string &n) {
 	for (int k = 0; kw[k]; k++) if (l == kw[k]) return false;
 	return true;
 }
-bool Exec::roundtrip_precondition(const LP &m) {
-	for (auto &c : m.cols) if (!plain_name(c.name)) return false;
-	for (auto &r : m.rows) if (!plain_name(r.name)) return false;
+bool Exec::roundtrip_precondition(const LP &m, bool names_too) {
+	if (names_too) { for (auto &c : m.cols) if (!plain_name(c.name)) return false;
+		for (auto &r : m.rows) if (!plain_name(r.name)) return false; }
 	bool anyrow = false; std::vector<char> used(m.cols.size(), 0);
 	for (size_t j = 0; j < m.cols.size(); j++) if (m.cols[j].obj != 0) used[j] = 1;
 	for (auto &r : m.rows) { bool ne = false; for (auto &kv : r.coef) if (kv.second != 0) { used[kv.first] = 1; ne = true; } if (ne) anyrow = true; }
@@ -115,9 +115,9 @@ void Exec::op_write(Client &c) {
 	T(strf("  write %s via=%s path=%s rv=%d bytes=%d hash=%s", fmt.c_str(), via.c_str(), path.c_str(), rv, stored ? (int)world.files[path].size() : -1, stored ? hex64(hashstr(world.files[path])).c_str() : "-"));
 	signature("write:" + fmt + ":" + via + ":" + o->life + strf(":%d", rv != 0));
 	if (trace && stored) { bool okz; std::string raw = raw_bytes(path, world.files[path], &okz); size_t pos = 0; int ln = 0; while (pos < raw.size() && ln < 60) { size_t e = raw.find('\n', pos); if (e == std::string::npos) e = raw.size(); out_line("F   " + raw.substr(pos, std::min<size_t>(e - pos, 300))); pos = e + 1; ln++; } }
-	FileInfo fi2; fi2.fmt = fmt; fi2.model = o->m; fi2.damaged = destructive || world.damaged_paths.count(path) != 0 || rv != 0 || !stored; fi2.kind = "prob"; fi2.precond = roundtrip_precondition(o->m) && !o->has_sos; fi2.sos = o->has_sos;
+	FileInfo fi2; fi2.fmt = fmt; fi2.model = o->m; fi2.damaged = destructive || world.damaged_paths.count(path) != 0 || rv != 0 || !stored; fi2.kind = "prob"; fi2.precond = roundtrip_precondition(o->m) && !o->has_sos; fi2.sos = o->has_sos; fi2.structural = roundtrip_precondition(o->m, false) && !o->has_sos && o->repairable_names;
 	{ char *pn = mpq_QSget_probname(o->p), *on = mpq_QSget_objname(o->p);   // problem and objective names are written verbatim too (a name read from a damaged file may not be a token)
-		if ((pn && !plain_name(pn)) || (on && !plain_name(on))) fi2.precond = false; mpq_QSfree(pn); mpq_QSfree(on); } fi2.chain = o->from_file_chain;
+		if ((pn && !plain_name(pn)) || (on && !plain_name(on))) fi2.precond = fi2.structural = false; mpq_QSfree(pn); mpq_QSfree(on); } fi2.chain = o->from_file_chain;
 	files[path] = fi2; prob_paths.erase(std::remove(prob_paths.begin(), prob_paths.end(), path), prob_paths.end()); prob_paths.push_back(path);
 	if (destructive && rv == 0) probe("io.write_error_swallowed");
 	if (!before.empty() && snapshot(*o) != before) violate("C16", "write-changed-object:" + fmt, "writing a problem changed what is observed of it");
@@ -164,7 +164,8 @@ void Exec::op_read(Client &c) {
 	if (maxpolls > 64) violate("C11", "eof-spin:" + fmt, strf("the reader polled its source %ld times in a row at end of input", maxpolls));
 	if (exists && damaged) { nontrivial("C11"); probe(q ? "c11.damaged_accepted" : "c11.damaged_rejected"); }
 	if (!q) {
-		if (known && !damaged && fit->second.precond) violate(fmt == "LP" ? "C08" : "C09", "reader-rejects-writer-output:" + fmt, "the reader returned NULL for an undamaged file the library wrote itself");
+		// names that are not LP tokens are repaired by the LP writer (C08 counts them in): its output has to be readable all the same
+		if (known && !damaged && (fit->second.precond || (fmt == "LP" && fit->second.structural))) violate(fmt == "LP" ? "C08" : "C09", std::string("reader-rejects-writer-output:") + fmt + (fit->second.precond ? "" : ":repaired-names"), "the reader returned NULL for an undamaged file the library wrote itself");
 		return;
 	}
 	// a returned problem must be internally consistent, writable, solvable and freeable (C11), whatever the bytes were
@@ -200,7 +201,7 @@ void Exec::op_read(Client &c) {
 	c.objs.push_back(o);
 	if (c.objs.size() > 6) { mpq_QSfree_prob(c.objs[0]->p); c.objs.erase(c.objs.begin()); }
 	FileInfo src; if (known) src = fit->second;
-	o->from_file_chain = known ? src.chain + 1 : 0; o->has_sos = known && src.sos;
+	o->from_file_chain = known ? src.chain + 1 : 0; o->has_sos = known && src.sos; o->repairable_names = known && !damaged;
 }
 
 // ------------------------------------------------------------------ damage (faults on stored bytes between write and read)
